@@ -161,7 +161,9 @@ def feasible (p : Problem) (s : Solution) : List String := Id.run do
     | none => errs := s!"{name}: no stops" :: errs
     | some s0 =>
       if s0.loc != some sh.startLoc then errs := s!"{name}: does not start at the shift start location" :: errs
-      if s0.departure < sh.startEarliest then errs := s!"{name}: departs at {s0.departure} before earliest {sh.startEarliest}" :: errs
+      -- the vehicle leaves when its departure activity ends; the first stop may go on (a break or a job at the depot)
+      let dep0 := (sv.head?.map (·.fin)).getD s0.departure
+      if dep0 < sh.startEarliest then errs := s!"{name}: departs at {dep0} before earliest {sh.startEarliest}" :: errs
       match sh.startLatest with
       | some l => if (sv.head?.map (·.fin)).getD s0.departure > l then
                     errs := s!"{name}: departs after latest {l}" :: errs
@@ -227,8 +229,10 @@ def feasible (p : Problem) (s : Solution) : List String := Id.run do
     match t.stops.head?, t.stops.getLast? with
     | some a, some b =>
       match vt.maxDuration with
-      | some m => if b.arrival - a.departure > m then
-                    errs := s!"{name}: duration {b.arrival - a.departure} exceeds limit {m}" :: errs
+      | some m =>
+        let dep0 := (sv.head?.map (·.fin)).getD a.departure
+        if b.arrival - dep0 > m then
+          errs := s!"{name}: duration {b.arrival - dep0} exceeds limit {m}" :: errs
       | none => pure ()
       match vt.maxDistance with
       | some m => if b.distance > m then errs := s!"{name}: distance {b.distance} exceeds limit {m}" :: errs
@@ -325,7 +329,8 @@ def replay (p : Problem) (s : Solution) : List String := Id.run do
         | none => x.fin - x.start)) 0
     match t.stops.head?, t.stops.getLast? with
     | some a, some b =>
-      let duration := b.departure - a.departure
+      -- the tour lasts from the end of the departure activity (the first stop may go on: a break or a job at the depot)
+      let duration := b.departure - (sv.head?.map (·.fin)).getD a.departure
       if !near t.stat.duration duration then errs := s!"{name}: statistic duration {t.stat.duration}, recomputed {duration}" :: errs
       if !near t.stat.distance dist then errs := s!"{name}: statistic distance {t.stat.distance}, recomputed {dist}" :: errs
       if !near t.stat.driving driving then errs := s!"{name}: driving {t.stat.driving}, recomputed {driving}" :: errs
